@@ -624,6 +624,7 @@ func probeTable(r *vlib.Rng) probe {
 var probeFamilies = []func(*vlib.Rng) probe{
 	probeBackground, probeBackground, probeBackground, probeBorder, probeBorder, probeBorderImage, probeBorderImage,
 	probeReplaced, probeReplaced, probeText, probeGroup, probeTable,
+	probeCanvases, probeCanvases, // gencanvas.go: content inside / after canvas switching constructs
 }
 
 func genDrawDoc(r *vlib.Rng) drawDoc {
